@@ -19,6 +19,7 @@ pub struct Case {
     pub decision: Decision,
     pub decision_name: &'static str,
     pub dseed: u64,
+    pub threads: usize,
 }
 
 pub fn decode(bytes: &[u8]) -> Case {
@@ -39,7 +40,14 @@ pub fn decode(bytes: &[u8]) -> Case {
     };
     let (decision, decision_name) = pick_decision(&mut s);
     let dseed = s.u32() as u64;
+    // the multi-threaded variants of the three solvers compute the same iterates
+    let threads = match s.weighted(&[14, 1, 1]) {
+        0 => 1,
+        1 => 2 + s.below(2),
+        _ => 2 + s.below(7),
+    };
     Case {
+        threads,
         built,
         method,
         params,
@@ -88,25 +96,30 @@ pub fn check(bytes: &[u8], _ctx: &Ctx) -> Verdict {
     if case.method != Method::Full {
         labels.push(case.decision_name);
     }
-    let run_lib = |t: u64, params: Option<RegretParams>| -> Result<glue::Solved, Verdict> {
+    if case.threads > 1 {
+        labels.push("several-threads");
+    }
+    let run_lib_with = |t: u64, params: Option<RegretParams>, threads: usize| -> Result<glue::Solved, Verdict> {
         let rec = Recorder::new(if case.method == Method::Full {
             Mode::Observe
         } else {
             Mode::Decide(case.decision.clone(), case.dseed)
         });
-        let res = glue::solve_hooked(&game, &rec, case.method, t, 0.0, 1, params);
+        let res = glue::solve_hooked(&game, &rec, case.method, t, 0.0, threads, params);
         if rec.fragile.load(std::sync::atomic::Ordering::SeqCst) {
             return Err(Verdict::Discard("decision-within-margin"));
         }
         glue::unpack(info, res).map_err(|m| Verdict::fail("C08/invalid-result", m))
     };
-    // omitting the parameters means the documented default
+    let run_lib = |t: u64, params: Option<RegretParams>| run_lib_with(t, params, case.threads);
+    // omitting the parameters means the documented default (compared bit for bit, so with one
+    // thread: several threads add in no fixed order)
     if case.params_name == "dcfr" {
-        let a = match run_lib(case.iters, None) {
+        let a = match run_lib_with(case.iters, None, 1) {
             Ok(x) => x,
             Err(v) => return v,
         };
-        let b = match run_lib(case.iters, Some(RegretParams::dcfr())) {
+        let b = match run_lib_with(case.iters, Some(RegretParams::dcfr()), 1) {
             Ok(x) => x,
             Err(v) => return v,
         };
@@ -213,7 +226,7 @@ pub fn prop() -> Prop {
         id: "C08",
         check,
         describe,
-        rule: "small and medium generated games (mostly generic real payoffs) x {Full, Sampled, External} x parameters (five presets, tuples with exponents in {+-inf, 0, [-5,5]}, gamma in {0, (0,8]}, weight in {0, +-inf, [-3,3]}) x T in 0..50 x decision functions; oracle: an independent reference implementation of discounted CFR on the abstract tree fed with the same sampling decisions; strategies within 1e-6 at every infoset up to the last iteration the conditioning guard admits (branch margins 1e-9, perturbation run, order-of-discounting ambiguity, exact ties resolved by any consistent rule); preset constants compared with the documented tuples; None == dcfr bitwise. Non-trivial = T >= 2, N >= 2 and the reference result differs from uniform by > 1e-3; distinct by (tree, method, parameters, T, decisions).",
+        rule: "small and medium generated games (mostly generic real payoffs) x {Full, Sampled, External} x parameters (five presets, tuples with exponents in {+-inf, 0, [-5,5]}, gamma in {0, (0,8]}, weight in {0, +-inf, [-3,3]}) x T in 0..50 x decision functions x {1 thread (seven cases in eight), 2..8 threads}; oracle: an independent reference implementation of discounted CFR on the abstract tree fed with the same sampling decisions; strategies within 1e-6 at every infoset up to the last iteration the conditioning guard admits (branch margins 1e-9, perturbation run, order-of-discounting ambiguity, exact ties resolved by any consistent rule); preset constants compared with the documented tuples; None == dcfr bitwise. Non-trivial = T >= 2, N >= 2 and the reference result differs from uniform by > 1e-3; distinct by (tree, method, parameters, T, decisions).",
         max_len: 900,
         cases_quick: 400_000,
         cases_thorough: 8_000_000,
